@@ -361,3 +361,111 @@ pub fn enumerate(tier: Tier) -> Vec<WitCase> {
     }
     out
 }
+
+/// World shapes as a *product*: every ordered sequence of 1..=k distinct world items drawn from a
+/// 17-item alphabet (world-level `use` with and without rename and through a second interface,
+/// world-level type declarations, interface paths in both directions, function items over the
+/// most recently introduced named type, inline interfaces, `include` with and without `with`)
+/// over a base declaration. `§` marks the places where WAC wants a semicolon and WIT none.
+pub fn enumerate_worlds(tier: Tier) -> Vec<WitCase> {
+    let thorough = tier == Tier::Thorough;
+    let bases: Vec<&TypeDecl> = TYPE_DECLS
+        .iter()
+        .filter(|t| if thorough { ["record", "variant", "enum", "flags", "alias-list", "resource-bare", "resource-full"].contains(&t.tag) } else { ["record", "resource-full"].contains(&t.tag) })
+        .collect();
+    const ITEMS: usize = 17;
+    let mut out = Vec::new();
+    for b in &bases {
+        let n = b.name;
+        let handle0 = if b.resource { format!("borrow<{n}>") } else { n.to_string() };
+        let prefix = format!(
+            "interface i0 {{\n  {}\n}}\n\ninterface i1 {{\n  use i0.{{{n}}};\n  g: func(x: {handle0}) -> {n};\n}}\n\nworld w0 {{\n  import a: func();\n  export b: func();\n}}\n\nworld w1 {{\n  import i0;\n  export i1;\n}}\n\n",
+            b.text
+        );
+        let max_len = if thorough || !b.resource { 3 } else { 2 };
+        let mut seqs: Vec<Vec<usize>> = (0..ITEMS).map(|i| vec![i]).collect();
+        let mut level = seqs.clone();
+        for _ in 1..max_len {
+            let mut next = Vec::new();
+            for s in &level {
+                for i in 0..ITEMS {
+                    if !s.contains(&i) {
+                        let mut t = s.clone();
+                        t.push(i);
+                        next.push(t);
+                    }
+                }
+            }
+            seqs.extend(next.iter().cloned());
+            level = next;
+        }
+        for s in seqs {
+            // the most recently introduced named type (name, is a resource)
+            let mut last: Option<(String, bool)> = None;
+            let mut body = String::new();
+            for &i in &s {
+                let (t, tb, to) = match &last {
+                    Some((t, true)) => (t.clone(), format!("borrow<{t}>"), t.clone()),
+                    Some((t, false)) => (t.clone(), t.clone(), t.clone()),
+                    None => ("u32".to_string(), "u32".to_string(), "u32".to_string()),
+                };
+                let _ = &t;
+                let line = match i {
+                    0 => {
+                        last = Some((n.to_string(), b.resource));
+                        format!("use i0.{{{n}}};")
+                    }
+                    1 => {
+                        last = Some(("m".to_string(), b.resource));
+                        format!("use i0.{{{n} as m}};")
+                    }
+                    2 => {
+                        last = Some(("k".to_string(), b.resource));
+                        format!("use i1.{{{n} as k}};")
+                    }
+                    3 => {
+                        last = Some(("wr".to_string(), false));
+                        "record wr { a: u32 }".to_string()
+                    }
+                    4 => {
+                        let l = format!("type wt = list<{to}>;");
+                        last = Some(("wt".to_string(), false));
+                        l
+                    }
+                    5 => "import i0;".to_string(),
+                    6 => "import i1;".to_string(),
+                    7 => "export i0;".to_string(),
+                    8 => "export i1;".to_string(),
+                    9 => format!("import f: func(a: {tb}) -> {to};"),
+                    10 => format!("export e: func(a: {to}, b: list<{tb}>);"),
+                    11 => "import x: interface {\n    f: func();\n  }§".to_string(),
+                    12 => "export y: interface {\n    record r { a: u32 }\n    g: func() -> r;\n  }§".to_string(),
+                    13 => "include w0;".to_string(),
+                    14 => "include w0 with { a as c }§".to_string(),
+                    15 => "include w1;".to_string(),
+                    _ => format!("import h: func() -> result<{to}, string>;"),
+                };
+                body.push_str("  ");
+                body.push_str(&line);
+                body.push('\n');
+            }
+            let text = format!("{prefix}world w {{\n{body}}}\n");
+            let id = format!("worldprod/{}/{}", b.tag, s.iter().map(|i| i.to_string()).collect::<Vec<_>>().join("-"));
+            let mut tags = vec!["worldprod".to_string(), b.tag.to_string(), format!("len{}", s.len())];
+            if s.contains(&7) && (s.contains(&8) || s.contains(&15)) || s.contains(&7) && s.contains(&2) {
+                tags.push("exports-i0-and-a-user".into());
+            }
+            out.push(WitCase {
+                id,
+                wac_text: format!("{}{}", header(Some("1.0.0")), text.replace('§', ";")),
+                text: format!("{}{}", header(Some("1.0.0")), text.replace('§', "")),
+                package: "t:g".into(),
+                version: Some("1.0.0".into()),
+                interfaces: vec!["i0".into(), "i1".into()],
+                worlds: vec!["w".into()],
+                tags,
+            });
+        }
+    }
+    out
+}
